@@ -49,7 +49,7 @@ theorem gen_sql_update (s : Sess) (self : V) (u : Uid) (p : Pol) (ok : Bool) :
 theorem gen_sql_delete (s : Sess) (self : V) (u : Uid) :
     SOutcome (delete_SQLStorage self (.py (.str u)) (SW s)) (SqlSession.step s (.delete u)) := by
   unfold delete_SQLStorage SW SOutcome SqlSession.step
-  simp [sessBulkDeleteM, sessCommitM, pairM, cNone, SW]
+  simp [tryElseM, sessElemDeleteM, sessBulkDeleteM, sessCommitM, pairM, cNone, SW]
 
 /-- `get` reads the session's view and leaves the session alone -/
 theorem gen_sql_get (s : Sess) (self : V) (u : Uid) :
